@@ -121,6 +121,12 @@ func RectFromCenter(lat, lon, meters float64) (
 		latT := math.Asin(latSin / rCos)
 		latTSin, latTCos := math.Sincos(latT)
 		lonΔ := math.Acos((rCos - latTSin*latSin) / (latTCos * latCos))
+		if math.IsNaN(lonΔ) {
+			// the circle touches a pole within rounding (asin of a value
+			// just past 1), where the pole adjustments below do not trigger:
+			// every longitude is reached.
+			lonΔ = math.Pi
+		}
 
 		minLon = lon - lonΔ
 		maxLon = lon + lonΔ
